@@ -114,3 +114,26 @@ Example C01_nonvacuous :
   | None => False
   end.
 Proof. vm_compute. repeat split. Qed.
+
+(** ** Lookups across structure modifications (ChainGetProofs): the search of get / put / remove on a layer whose
+    leaf chain is modified by inserts, removes, SPLITS and UNLINKS in any interleaving answers with the presence of
+    the key at some instant between invocation and response (node granularity; the slot-level protocol inside one
+    border is BorderProofs above). *)
+From Yk Require Import ChainDefs ChainGetDefs ChainGetProofs.
+
+Theorem C01_chain_get_linearizable : forall kss evs s b,
+  kss_ok kss = true -> grun (ginit kss) evs = Some s ->
+  g_pc (g_get s) = GDone b -> In b (g_seen s).
+Proof. exact chain_get_linearizable. Qed.
+Print Assumptions C01_chain_get_linearizable.
+
+(** the ghost [g_seen] starts with the presence at the current instant *)
+Theorem C01_chain_get_seen_head : forall kss evs s,
+  kss_ok kss = true -> grun (ginit kss) evs = Some s -> searching (g_get s) = true ->
+  hd_error (g_seen s) = Some (present (g_key (g_get s)) (g_c s)).
+Proof. exact chain_get_seen_head. Qed.
+Print Assumptions C01_chain_get_seen_head.
+
+Example C01_chain_get_nonvacuous : exists evs s, grun (ginit [[10]; [20]]) evs = Some s /\
+  g_pc (g_get s) = GDone true /\ (1 <=? g_restarts (g_get s)) = true /\ In false (g_seen s).
+Proof. exact chain_get_nonvacuous2. Qed.
